@@ -80,7 +80,14 @@ class CSSRule(css_parser.util.Base2):
 
     def _setAtkeyword(self, keyword):
         """Check if new keyword fits the rule it is used for."""
-        atkeyword = self._normalize(keyword)
+        def _repl(m):
+            num = int(m.group(0)[1:], 16)
+            if num <= sys.maxunicode:
+                return (chr if sys.version_info[0] >= 3 else unichr)(num)  # noqa
+            return m.group(0)
+        # the tokenizer leaves the unicode escapes in a known at-keyword
+        atkeyword = self._normalize(
+            css_parser.tokenize2.Tokenizer.unicodesub(_repl, keyword))
         if not self.atkeyword or (self.atkeyword == atkeyword):
             self._atkeyword = atkeyword
             self._keyword = keyword
